@@ -921,6 +921,9 @@ def _breaks_after_progress(body, counters, shrink):
                     ok = False
             elif _progress_stmt(st, counters, shrink):
                 progressed = True
+            elif isinstance(st, ast.Try) and any(_progress_stmt(x, counters, shrink) for x in st.body) and all(
+                    h.body and isinstance(h.body[-1], (ast.Continue, ast.Return, ast.Raise)) for h in st.handlers):
+                progressed = True          # try: ...; del X[j]  except E: continue   -- past the try, X got shorter
             for fld in ("body", "orelse", "finalbody"):
                 sub = getattr(st, fld, None)
                 if isinstance(sub, list) and sub and isinstance(sub[0], ast.stmt) and not isinstance(st, (ast.For, ast.While)):
@@ -1180,6 +1183,8 @@ def loop_witness(fn, loop, ctx=None):
                 r = pat.root_name(n.func.value)
                 if r:
                     coll.add(r)
+            if isinstance(n, ast.Delete):
+                coll |= {pat.root_name(t.value) for t in n.targets if isinstance(t, ast.Subscript) and pat.root_name(t.value)}
         if _all_paths_progress(loop.body, set(), coll):
             return "shrinking", f"every iteration breaks or removes an element of {sorted(coll)}"
         return None, "`while True` without a recognised ranking"
